@@ -9,7 +9,7 @@ pub fn oracle(o: &Outcome, s: &Scen) -> Option<(String, serde_json::Value)> {
     return Some(("call_did_not_return".into(), serde_json::json!({"finished": o.baton.finished})));
   }
   match s.kind {
-    Kind::Subject => common_order(o),
+    Kind::Subject => common_order(o).or_else(|| terminal_consistency(o)),
     Kind::Pipe(_) if s.name == "share_threads" => common_order(o),
     Kind::Shared => share_oracle(o),
     Kind::Pipe(_) if s.name == "interval+workers" => interval_oracle(o, s).or_else(|| after_unsub(o)),
